@@ -696,6 +696,9 @@ func (c *Client) readResponseTagged(tag, typ string) (startTLS *startTLSCommand,
 			if !c.dec.ExpectSP() || !c.dec.ExpectNumber(&uidValidity) || !c.dec.ExpectSP() || !c.dec.ExpectUID(&uid) {
 				return nil, fmt.Errorf("in resp-code-apnd: %v", c.dec.Err())
 			}
+			if uidValidity == 0 || uid == 0 {
+				return nil, fmt.Errorf("in resp-code-apnd: invalid UIDVALIDITY %v or UID %v", uidValidity, uid)
+			}
 			if cmd, ok := cmd.(*AppendCommand); ok {
 				cmd.data.UID = uid
 				cmd.data.UIDValidity = uidValidity
